@@ -2,8 +2,11 @@
    (the effect of a packet is confined to the slot of its connection key, within capacity, no expiry):
    step s p = (upd s (key p) v, outputs tagged key p) with (v, outputs) = lstep (s (key p)) p.
    Proofs: Base/Keyed.v, Proofs/KeyedProofs.v. *)
-From Coq Require Import List NArith Bool.
+From Coq Require Import List NArith ZArith Bool.
 From HN Require Import Base.Bytes Base.Keyed Proofs.KeyedProofs.
+From HN Require Import Model.TlsReader Model.TlsAnalyzer Model.TcpAnalyzer.
+From HN Require Model.Uptime.
+From HN Require Import Proofs.KeyedInstances Proofs.KeyedInstancesTcp Proofs.KeyedExamples.
 Import ListNotations.
 
 (* the results attributed to connection k in ANY interleaving are those of its own packets alone *)
@@ -35,3 +38,255 @@ Theorem C07_no_disable : forall (P K S O : Type) (key : P -> K) (keqb : K -> K -
   = proj K O keqb k (snd (run P K S O key keqb lstep s probe)).
 Proof. exact no_disable. Qed.
 Print Assumptions C07_no_disable.
+
+(* ====================================================================================================
+   CONCRETE INSTANCES.  The packet-level models of the real sequential analyzers
+     TLS: Model/TlsAnalyzer.v  tls_run cap fl frames      (packet_parser framing -> pnet views -> process.rs flow
+                                                           step over the TtlCache model -> ObservableTlsClient)
+     TCP: Model/TcpAnalyzer.v  tcp_run db cap tr events   (event = frame + clock reading; TcpExtract signature/MTU
+                                                           part + uptime::check_ts_tcp per timestamp option)
+   ARE keyed machines while the table stays within its capacity (no eviction; TTL expiry is outside the
+   models), so the generic theorems above hold for them.  Keys:  tls_key = directed 4-tuple
+   (version, src, dst, sport, dport) as process.rs builds FlowKey;  tcp_key = (Connection, is_client) as
+   uptime.rs builds ConnectionKey.  `*_results` = the per-packet results tagged with the key of the packet;
+   `*_within_capacityb cap st tr` = along the run of tr from st, a packet whose key is not in the table
+   arrives only while the table holds fewer than cap entries.  The models are tied to the real analyzers
+   by the L and T case kinds of Extract/EC07.v (same frames through model and code, every run).
+   Proofs: Proofs/KeyedInstances.v, KeyedInstancesTcp.v, KeyedExamples.v. *)
+Open Scope N_scope.
+
+(* ---------------------------------------------------------------- TLS *)
+(* simulation: the concrete run equals Keyed.run of (tls_key, tls_lstep) on the table read as a function *)
+Theorem C07_tls_is_keyed : forall (cap : N) (tr : list bytes) (fl : tls_state),
+  tls_within_capacityb cap fl tr = true ->
+  tls_results cap fl tr = snd (run bytes N reader tls_out tls_key N.eqb tls_lstep (tls_abs fl) tr).
+Proof. exact tls_is_keyed. Qed.
+Check C07_tls_is_keyed : forall (cap : N) (tr : list bytes) (fl : tls_state),
+  tls_within_capacityb cap fl tr = true ->
+  tls_results cap fl tr = snd (run bytes N reader tls_out tls_key N.eqb tls_lstep (tls_abs fl) tr).
+Print Assumptions C07_tls_is_keyed.
+
+(* the results of flow k in ANY trace are the results of its own packets run alone from the same state:
+   as tagged results, and literally as the output of the analyzer on the sub-trace *)
+Theorem C07_tls_isolation : forall (cap : N) (tr : list bytes) (fl : tls_state) (k : N),
+  tls_within_capacityb cap fl tr = true ->
+  tls_within_capacityb cap fl (fk bytes N tls_key N.eqb k tr) = true ->
+  proj N tls_out N.eqb k (tls_results cap fl tr)
+    = proj N tls_out N.eqb k (tls_results cap fl (fk bytes N tls_key N.eqb k tr))
+  /\ proj N tls_out N.eqb k (tls_results cap fl tr) = snd (tls_run cap fl (fk bytes N tls_key N.eqb k tr)).
+Proof. exact tls_isolation. Qed.
+Check C07_tls_isolation : forall (cap : N) (tr : list bytes) (fl : tls_state) (k : N),
+  tls_within_capacityb cap fl tr = true ->
+  tls_within_capacityb cap fl (fk bytes N tls_key N.eqb k tr) = true ->
+  proj N tls_out N.eqb k (tls_results cap fl tr)
+    = proj N tls_out N.eqb k (tls_results cap fl (fk bytes N tls_key N.eqb k tr))
+  /\ proj N tls_out N.eqb k (tls_results cap fl tr) = snd (tls_run cap fl (fk bytes N tls_key N.eqb k tr)).
+Print Assumptions C07_tls_isolation.
+
+Theorem C07_tls_interleaving_invariant : forall (cap : N) (tr tr' : list bytes) (fl : tls_state),
+  tls_within_capacityb cap fl tr = true -> tls_within_capacityb cap fl tr' = true ->
+  (forall k, fk bytes N tls_key N.eqb k tr = fk bytes N tls_key N.eqb k tr') ->
+  forall k, proj N tls_out N.eqb k (tls_results cap fl tr) = proj N tls_out N.eqb k (tls_results cap fl tr').
+Proof. exact tls_interleaving_invariant. Qed.
+Check C07_tls_interleaving_invariant : forall (cap : N) (tr tr' : list bytes) (fl : tls_state),
+  tls_within_capacityb cap fl tr = true -> tls_within_capacityb cap fl tr' = true ->
+  (forall k, fk bytes N tls_key N.eqb k tr = fk bytes N tls_key N.eqb k tr') ->
+  forall k, proj N tls_out N.eqb k (tls_results cap fl tr) = proj N tls_out N.eqb k (tls_results cap fl tr').
+Print Assumptions C07_tls_interleaving_invariant.
+
+(* no flow disables the ones that follow: after any history h of OTHER flows the probe is analysed as without h *)
+Theorem C07_tls_no_disable : forall (cap : N) (h probe : list bytes) (fl : tls_state) (k : N),
+  tls_within_capacityb cap fl (h ++ probe) = true -> tls_within_capacityb cap fl probe = true ->
+  (forall f, In f h -> tls_key f <> k) ->
+  proj N tls_out N.eqb k (tls_results cap fl (h ++ probe)) = proj N tls_out N.eqb k (tls_results cap fl probe).
+Proof. exact tls_no_disable. Qed.
+Check C07_tls_no_disable : forall (cap : N) (h probe : list bytes) (fl : tls_state) (k : N),
+  tls_within_capacityb cap fl (h ++ probe) = true -> tls_within_capacityb cap fl probe = true ->
+  (forall f, In f h -> tls_key f <> k) ->
+  proj N tls_out N.eqb k (tls_results cap fl (h ++ probe)) = proj N tls_out N.eqb k (tls_results cap fl probe).
+Print Assumptions C07_tls_no_disable.
+
+(* the capacity hypotheses follow from a count: tracked flows + packets to come <= capacity *)
+Theorem C07_tls_capacity_by_count : forall (cap : N) (tr : list bytes) (fl : tls_state) (k : N),
+  TlsHello.lenN fl + TlsHello.lenN tr <= cap ->
+  tls_within_capacityb cap fl tr = true /\ tls_within_capacityb cap fl (fk bytes N tls_key N.eqb k tr) = true.
+Proof. exact tls_capacity_by_count. Qed.
+Check C07_tls_capacity_by_count : forall (cap : N) (tr : list bytes) (fl : tls_state) (k : N),
+  TlsHello.lenN fl + TlsHello.lenN tr <= cap ->
+  tls_within_capacityb cap fl tr = true /\ tls_within_capacityb cap fl (fk bytes N tls_key N.eqb k tr) = true.
+Print Assumptions C07_tls_capacity_by_count.
+
+(* ... or from a census of flows: every key in the table or inserted by the trace is one of at most cap
+   keys U ("at most cap live flows"); tls_tracked f = the frame reaches the flow table *)
+Theorem C07_tls_capacity_by_census : forall (cap : N) (U : list N) (tr : list bytes) (fl : tls_state) (k : N),
+  NoDup (tls_keys fl) -> incl (tls_keys fl) U ->
+  (forall f, In f tr -> tls_tracked f = true -> In (tls_key f) U) ->
+  TlsHello.lenN U <= cap ->
+  tls_within_capacityb cap fl tr = true /\ tls_within_capacityb cap fl (fk bytes N tls_key N.eqb k tr) = true.
+Proof. exact tls_capacity_by_census. Qed.
+Check C07_tls_capacity_by_census : forall (cap : N) (U : list N) (tr : list bytes) (fl : tls_state) (k : N),
+  NoDup (tls_keys fl) -> incl (tls_keys fl) U ->
+  (forall f, In f tr -> tls_tracked f = true -> In (tls_key f) U) ->
+  TlsHello.lenN U <= cap ->
+  tls_within_capacityb cap fl tr = true /\ tls_within_capacityb cap fl (fk bytes N tls_key N.eqb k tr) = true.
+Print Assumptions C07_tls_capacity_by_census.
+Example C07_tls_census_example :
+  let U := [tls_kA; tls_key tlsB1] in
+  NoDup (tls_keys []) /\ incl (tls_keys []) U /\
+  (forall f, In f tls_trace -> tls_tracked f = true -> In (tls_key f) U) /\ TlsHello.lenN U <= 2.
+Proof. exact tls_census_example. Qed.
+
+(* the key is the directed 4-tuple: on addresses < 2^128 and ports < 2^16 distinct tuples have distinct keys *)
+Theorem C07_tls_key_is_directed_tuple : forall v s d sp dp v' s' d' sp' dp' : N,
+  s < P128 -> d < P128 -> sp < 65536 -> dp < 65536 -> s' < P128 -> d' < P128 -> sp' < 65536 -> dp' < 65536 ->
+  tls_flow_key v s d sp dp = tls_flow_key v' s' d' sp' dp' -> v = v' /\ s = s' /\ d = d' /\ sp = sp' /\ dp = dp'.
+Proof. exact tls_flow_key_injective. Qed.
+Print Assumptions C07_tls_key_is_directed_tuple.
+
+(* the hypotheses are satisfiable on a two-connection interleaving (sibling connections that differ in the
+   client address only; A's ClientHello in two segments around B's): A is reported once, on its 2nd segment *)
+Example C07_tls_example :
+  tls_within_capacityb 8 [] tls_trace = true /\
+  tls_within_capacityb 8 [] (fk bytes N tls_key N.eqb tls_kA tls_trace) = true /\
+  fk bytes N tls_key N.eqb tls_kA tls_trace = [tlsA1; tlsA2] /\
+  tls_key tlsB1 <> tls_kA /\
+  map is_report (proj N tls_out N.eqb tls_kA (tls_results 8 [] tls_trace)) = [false; true] /\
+  map is_report (snd (tls_run 8 [] tls_trace)) = [false; true; true].
+Proof. exact tls_example. Qed.
+Example C07_tls_no_disable_example :
+  tls_within_capacityb 8 [] ([tlsB1; tlsB1] ++ [tlsA1; tlsA2]) = true /\
+  tls_within_capacityb 8 [] [tlsA1; tlsA2] = true /\
+  (forall f, In f [tlsB1; tlsB1] -> tls_key f <> tls_kA).
+Proof. exact tls_no_disable_example. Qed.
+
+(* the capacity hypothesis cannot be dropped: with a table of one entry the same trace loses A's report *)
+Theorem C07_tls_capacity_needed :
+  tls_within_capacityb 1 [] tls_trace = false /\
+  map is_report (proj N tls_out N.eqb tls_kA (tls_results 1 [] tls_trace)) = [false; false] /\
+  map is_report (snd (tls_run 1 [] (fk bytes N tls_key N.eqb tls_kA tls_trace))) = [false; true].
+Proof. exact tls_capacity_needed. Qed.
+Print Assumptions C07_tls_capacity_needed.
+
+(* ---------------------------------------------------------------- TCP *)
+Notation ckey := Uptime.connection_key.
+Notation mtu_db := (list (bytes * list N)).
+
+Theorem C07_tcp_is_keyed : forall (db : mtu_db) (cap : N) (es : list tcp_event) (tr : tcp_state),
+  tcp_within_capacityb db cap tr es = true ->
+  tcp_results db cap tr es
+  = snd (run tcp_event ckey Uptime.tcp_timestamp tcp_result (tcp_key db) Uptime.key_eqb (tcp_lstep db) (tcp_abs tr) es).
+Proof. exact tcp_is_keyed. Qed.
+Check C07_tcp_is_keyed : forall (db : mtu_db) (cap : N) (es : list tcp_event) (tr : tcp_state),
+  tcp_within_capacityb db cap tr es = true ->
+  tcp_results db cap tr es
+  = snd (run tcp_event ckey Uptime.tcp_timestamp tcp_result (tcp_key db) Uptime.key_eqb (tcp_lstep db) (tcp_abs tr) es).
+Print Assumptions C07_tcp_is_keyed.
+
+Theorem C07_tcp_isolation : forall (db : mtu_db) (cap : N) (es : list tcp_event) (tr : tcp_state) (k : ckey),
+  tcp_within_capacityb db cap tr es = true ->
+  tcp_within_capacityb db cap tr (fk tcp_event ckey (tcp_key db) Uptime.key_eqb k es) = true ->
+  proj ckey tcp_result Uptime.key_eqb k (tcp_results db cap tr es)
+    = proj ckey tcp_result Uptime.key_eqb k (tcp_results db cap tr (fk tcp_event ckey (tcp_key db) Uptime.key_eqb k es))
+  /\ proj ckey tcp_result Uptime.key_eqb k (tcp_results db cap tr es)
+    = snd (tcp_run db cap tr (fk tcp_event ckey (tcp_key db) Uptime.key_eqb k es)).
+Proof. exact tcp_isolation. Qed.
+Check C07_tcp_isolation : forall (db : mtu_db) (cap : N) (es : list tcp_event) (tr : tcp_state) (k : ckey),
+  tcp_within_capacityb db cap tr es = true ->
+  tcp_within_capacityb db cap tr (fk tcp_event ckey (tcp_key db) Uptime.key_eqb k es) = true ->
+  proj ckey tcp_result Uptime.key_eqb k (tcp_results db cap tr es)
+    = proj ckey tcp_result Uptime.key_eqb k (tcp_results db cap tr (fk tcp_event ckey (tcp_key db) Uptime.key_eqb k es))
+  /\ proj ckey tcp_result Uptime.key_eqb k (tcp_results db cap tr es)
+    = snd (tcp_run db cap tr (fk tcp_event ckey (tcp_key db) Uptime.key_eqb k es)).
+Print Assumptions C07_tcp_isolation.
+
+Theorem C07_tcp_interleaving_invariant : forall (db : mtu_db) (cap : N) (es es' : list tcp_event) (tr : tcp_state),
+  tcp_within_capacityb db cap tr es = true -> tcp_within_capacityb db cap tr es' = true ->
+  (forall k, fk tcp_event ckey (tcp_key db) Uptime.key_eqb k es = fk tcp_event ckey (tcp_key db) Uptime.key_eqb k es') ->
+  forall k, proj ckey tcp_result Uptime.key_eqb k (tcp_results db cap tr es)
+          = proj ckey tcp_result Uptime.key_eqb k (tcp_results db cap tr es').
+Proof. exact tcp_interleaving_invariant. Qed.
+Check C07_tcp_interleaving_invariant : forall (db : mtu_db) (cap : N) (es es' : list tcp_event) (tr : tcp_state),
+  tcp_within_capacityb db cap tr es = true -> tcp_within_capacityb db cap tr es' = true ->
+  (forall k, fk tcp_event ckey (tcp_key db) Uptime.key_eqb k es = fk tcp_event ckey (tcp_key db) Uptime.key_eqb k es') ->
+  forall k, proj ckey tcp_result Uptime.key_eqb k (tcp_results db cap tr es)
+          = proj ckey tcp_result Uptime.key_eqb k (tcp_results db cap tr es').
+Print Assumptions C07_tcp_interleaving_invariant.
+
+Theorem C07_tcp_no_disable : forall (db : mtu_db) (cap : N) (h probe : list tcp_event) (tr : tcp_state) (k : ckey),
+  tcp_within_capacityb db cap tr (h ++ probe) = true -> tcp_within_capacityb db cap tr probe = true ->
+  (forall e, In e h -> tcp_key db e <> k) ->
+  proj ckey tcp_result Uptime.key_eqb k (tcp_results db cap tr (h ++ probe))
+  = proj ckey tcp_result Uptime.key_eqb k (tcp_results db cap tr probe).
+Proof. exact tcp_no_disable. Qed.
+Check C07_tcp_no_disable : forall (db : mtu_db) (cap : N) (h probe : list tcp_event) (tr : tcp_state) (k : ckey),
+  tcp_within_capacityb db cap tr (h ++ probe) = true -> tcp_within_capacityb db cap tr probe = true ->
+  (forall e, In e h -> tcp_key db e <> k) ->
+  proj ckey tcp_result Uptime.key_eqb k (tcp_results db cap tr (h ++ probe))
+  = proj ckey tcp_result Uptime.key_eqb k (tcp_results db cap tr probe).
+Print Assumptions C07_tcp_no_disable.
+
+Theorem C07_tcp_capacity_by_count : forall (db : mtu_db) (cap : N) (es : list tcp_event) (tr : tcp_state) (k : ckey),
+  clen tr + TlsHello.lenN es <= cap ->
+  tcp_within_capacityb db cap tr es = true /\
+  tcp_within_capacityb db cap tr (fk tcp_event ckey (tcp_key db) Uptime.key_eqb k es) = true.
+Proof. exact tcp_capacity_by_count. Qed.
+Check C07_tcp_capacity_by_count : forall (db : mtu_db) (cap : N) (es : list tcp_event) (tr : tcp_state) (k : ckey),
+  clen tr + TlsHello.lenN es <= cap ->
+  tcp_within_capacityb db cap tr es = true /\
+  tcp_within_capacityb db cap tr (fk tcp_event ckey (tcp_key db) Uptime.key_eqb k es) = true.
+Print Assumptions C07_tcp_capacity_by_count.
+
+Theorem C07_tcp_capacity_by_census :
+  forall (db : mtu_db) (cap : N) (U : list ckey) (es : list tcp_event) (tr : tcp_state) (k : ckey),
+  NoDup (tcp_keys tr) -> incl (tcp_keys tr) U ->
+  (forall e, In e es -> tcp_tracked db e = true -> In (tcp_key db e) U) ->
+  TlsHello.lenN U <= cap ->
+  tcp_within_capacityb db cap tr es = true /\
+  tcp_within_capacityb db cap tr (fk tcp_event ckey (tcp_key db) Uptime.key_eqb k es) = true.
+Proof. exact tcp_capacity_by_census. Qed.
+Check C07_tcp_capacity_by_census :
+  forall (db : mtu_db) (cap : N) (U : list ckey) (es : list tcp_event) (tr : tcp_state) (k : ckey),
+  NoDup (tcp_keys tr) -> incl (tcp_keys tr) U ->
+  (forall e, In e es -> tcp_tracked db e = true -> In (tcp_key db e) U) ->
+  TlsHello.lenN U <= cap ->
+  tcp_within_capacityb db cap tr es = true /\
+  tcp_within_capacityb db cap tr (fk tcp_event ckey (tcp_key db) Uptime.key_eqb k es) = true.
+Print Assumptions C07_tcp_capacity_by_census.
+Example C07_tcp_census_example :
+  let U := [tcp_kA; tcp_key [] tcpB1] in
+  NoDup (tcp_keys []) /\ incl (tcp_keys []) U /\
+  (forall e, In e tcp_trace -> tcp_tracked [] e = true -> In (tcp_key [] e) U) /\ TlsHello.lenN U <= 2.
+Proof. exact tcp_census_example. Qed.
+
+(* the signature / MTU part of a packet's result does not depend on the tracker or on the clock at all *)
+Theorem C07_tcp_signature_stateless : forall (db : mtu_db) (cap : N) (tr tr' : tcp_state) (f : bytes) (now now' : Z),
+  match snd (tcp_packet_step db cap tr (f, now)), snd (tcp_packet_step db cap tr' (f, now')) with
+  | TRErr, TRErr => True
+  | TROk o _ _, TROk o' _ _ => o = o' /\ TcpExtract.process_frame db f = TcpExtract.Ok o
+  | _, _ => False
+  end.
+Proof. exact tcp_signature_stateless. Qed.
+Print Assumptions C07_tcp_signature_stateless.
+
+(* satisfiable: two sibling connections (clients 10.0.0.1 / 10.0.0.2, same ports, same server) with clocks at
+   1000 Hz and 100 Hz, SYNs then ACKs interleaved: A's ACK reports 1000 Hz, B's 100 Hz *)
+Example C07_tcp_example :
+  tcp_within_capacityb [] 8 [] tcp_trace = true /\
+  tcp_within_capacityb [] 8 [] (fk tcp_event ckey (tcp_key []) Uptime.key_eqb tcp_kA tcp_trace) = true /\
+  fk tcp_event ckey (tcp_key []) Uptime.key_eqb tcp_kA tcp_trace = [tcpA1; tcpA2] /\
+  Uptime.key_eqb (tcp_key [] tcpB1) tcp_kA = false /\
+  map up_freq (proj ckey tcp_result Uptime.key_eqb tcp_kA (tcp_results [] 8 [] tcp_trace)) = [None; Some 1000%Z] /\
+  map up_freq (snd (tcp_run [] 8 [] tcp_trace)) = [None; None; Some 1000%Z; Some 100%Z].
+Proof. exact tcp_example. Qed.
+Example C07_tcp_no_disable_example :
+  tcp_within_capacityb [] 8 [] ([tcpB1; tcpB2] ++ [tcpA1; tcpA2]) = true /\
+  tcp_within_capacityb [] 8 [] [tcpA1; tcpA2] = true /\
+  (forall e, In e [tcpB1; tcpB2] -> tcp_key [] e <> tcp_kA).
+Proof. exact tcp_no_disable_example. Qed.
+
+Theorem C07_tcp_capacity_needed :
+  tcp_within_capacityb [] 1 [] tcp_trace = false /\
+  map up_freq (proj ckey tcp_result Uptime.key_eqb tcp_kA (tcp_results [] 1 [] tcp_trace)) = [None; None] /\
+  map up_freq (snd (tcp_run [] 1 [] (fk tcp_event ckey (tcp_key []) Uptime.key_eqb tcp_kA tcp_trace))) = [None; Some 1000%Z].
+Proof. exact tcp_capacity_needed. Qed.
+Print Assumptions C07_tcp_capacity_needed.
